@@ -20,7 +20,7 @@ RULE = ('histories of up to 70 operations on a full in-process client (real cond
 ASSUMPTIONS = [
     'the capacity arithmetic of the command ring is C06\'s: here the ring either has room (the harness drains it after every operation) or, between SetRingFull true / false, refuses every command; strings fit the 512-byte scratch buffer (C13)',
     'driver events are well formed: ASCII strings, counter ids inside the counters buffer, an existing log file with legal geometry, '
-    'exclusive-publication answers carry registration id = correlation id; error code 4 (channel endpoint) is not generated',
+    'exclusive-publication answers carry registration id = correlation id; an ErrorResponse with error code 4 (channel endpoint error) carries a channel status indicator id in its correlation-id field (generated: ids of live resources, other ids, ids that only agree as i32)',
     'callbacks do not call back into the client; the clock stays below 2^62 and above the linger time-out (C11/C12)',
     'find_exclusive_publication is pub(crate): it is reached through the add-only hook ClientConductor::find_exclusive_publication_for_verif '
     '(hooks/cond-find-exclusive.diff); while the repository lacks the hook exclusive publications are exercised through add, answers and close only',
